@@ -1223,7 +1223,7 @@ pub fn run(rec: &mut Rec, rng: &mut Rng, n_ops: usize, mode: &str) {
         if mode == "edit" && rng.chance(1, 10) {
             // a region whose end would exceed the address space must be refused at creation
             let len = 1 + rng.below(4096) as usize;
-            g.region_line("g.region m=0", u64::MAX - len as u64 + 1 + rng.below(3), len, 1, false, 0);
+            g.region_line("g.region m=0", (u64::MAX - len as u64 + 1).saturating_add(rng.below(3)), len, 1, false, 0);
         }
         let out = g.go(format!("g.build m=0 kind={}", kind), true);
         if !out.starts_with("ok") {
